@@ -144,9 +144,15 @@ namespace CDNS {
          * @throw std::ios_base::failure if writing to output file fails
          */
         void write(const char* p, std::size_t size) override {
+            // Failure of this output was already reported, drop its data until the output is rotated
+            if (m_failed)
+                return;
+
             m_out.write(p, size);
-            if (m_out.fail())
+            if (m_out.fail()) {
+                m_failed = true;
                 throw CborOutputException("Couldn't write to the output file!");
+            }
         }
 
         /**
@@ -160,10 +166,12 @@ namespace CDNS {
 
             // Open the new output even if the old one couldn't be completed, then report the failure
             bool complete = close_file();
+            bool reported = m_failed;
+            m_failed = false;
             m_value = boost::any_cast<std::string>(value);
             open();
 
-            if (!complete)
+            if (!complete && !reported)
                 throw CborOutputException("Couldn't write all data to the output file!");
         }
 
@@ -217,6 +225,7 @@ namespace CDNS {
         std::string m_value;
         std::string m_extension;
         std::ofstream m_out;
+        bool m_failed = false; //!< Writing to the current output failed and it was reported by exception
     };
 
     /**
@@ -251,8 +260,13 @@ namespace CDNS {
          * @throw CborOutputException if writing to output file descriptor fails
          */
         void write(const char* p, std::size_t size) override {
+            // Failure of this output was already reported, drop its data until the output is rotated
+            if (m_failed)
+                return;
+
             int ret = ::write(m_value, p, size);
             if (ret != static_cast<int>(size)) {
+                m_failed = true;
                 throw CborOutputException("Given " + std::to_string(size) + " bytes to write, but "
                                         "only " + std::to_string(ret) + " bytes were written!");
             }
@@ -268,6 +282,7 @@ namespace CDNS {
                 return;
 
             close();
+            m_failed = false;
             m_value = boost::any_cast<int>(value);
             open();
         }
@@ -292,6 +307,7 @@ namespace CDNS {
         }
 
         int m_value;
+        bool m_failed = false; //!< Writing to the current output failed and it was reported by exception
     };
 
     /**
@@ -377,7 +393,8 @@ namespace CDNS {
          * @throw CborOutputException if initialization of the new output fails
          */
         void rotate_output(const boost::any& value) override {
-            close();
+            // Unlike close(), finish() reports failure to write the end of the compressed stream
+            finish();
             m_writer->rotate_output(value);
             open();
         }
@@ -403,6 +420,12 @@ namespace CDNS {
          * @return ZLIB return code
          */
         int write_gzip(std::size_t in_size, int action);
+
+        /**
+         * @brief Finish the GZIP stream and release it
+         * @throw CborOutputException if the rest of the stream can't be written to output
+         */
+        void finish();
 
         std::unique_ptr<BaseCborOutputWriter> m_writer;
         z_stream m_gzip;
@@ -448,7 +471,8 @@ namespace CDNS {
          * @throw CborOutputException if initialization of the new output fails
          */
         void rotate_output(const boost::any& value) override {
-            close();
+            // Unlike close(), finish() reports failure to write the end of the compressed stream
+            finish();
             m_writer->rotate_output(value);
             open();
         }
@@ -474,6 +498,12 @@ namespace CDNS {
          * @return lzma_ret LZMA return code
          */
         lzma_ret write_lzma(std::size_t in_size, lzma_action action);
+
+        /**
+         * @brief Finish the XZ stream and release it
+         * @throw CborOutputException if the rest of the stream can't be written to output
+         */
+        void finish();
 
         std::unique_ptr<BaseCborOutputWriter> m_writer;
         lzma_stream m_lzma;
